@@ -151,6 +151,7 @@ package sql
 //@   callsite (*Connection).RawQuery requires[C06] nid-argument-position: qmarks(targetSubjectSQL) == len(targetSubjectArgs) && len($arg2) == len(targetSubjectArgs) + 6 && as($arg2[len(targetSubjectArgs)], uuid.UUID) == netid(t.p, now(ctx))
 //@   callsite (*Connection).RawQuery requires[C07] cursor-and-limit-arguments: as($arg2[len(targetSubjectArgs) + 1], uuid.UUID) == shardID && as($arg2[len(targetSubjectArgs) + 5], int) == limit
 //@   loop 1 invariant db == old(db) && wft(t) && ctx != nil && (isnil(res) || fresh(res))
+//@   ensures[C07] every-page-is-read: err == nil ==> (len(res) >= 1 && res[len(res) - 1] != nil && res[len(res) - 1].Found) || len(rows) != limit
 //@   loop 1 step[C07] cursor-is-last-row-of-a-full-page: len(rows) == limit && shardID == rows[len(rows) - 1].RelationTuple.ID
 //@   loop 2 invariant db == old(db) && (isnil(res) || fresh(res))
 
